@@ -402,8 +402,8 @@ def canon_dump(nodes):
 
 
 def feature_object_key(op):
-    """`append` / `del` / `has` with a Feature *object* as the key"""
-    return (op[0] in ("append", "del", "has") and len(op) > 3 and isinstance(op[3], dict) and "o" in op[3]
+    """`append` / `del` / `has` / `get` with a Feature *object* as the key"""
+    return (op[0] in ("append", "del", "has", "get") and len(op) > 3 and isinstance(op[3], dict) and "o" in op[3]
             and "features" in op[3]["o"])
 
 
